@@ -627,6 +627,16 @@ func genC01base(prop, tier string, r *rand.Rand) *Scn {
 		} else {
 			g.sc.Root = g.tree(1+r.IntN(4), 1+r.IntN(2), 0)
 			g.sc.Runs = 1 + r.IntN(2)
+			if r.IntN(4) == 0 {
+				// an embedded flow used through a type that embeds *flyt.Flow and has
+				// a Prep and a Post of its own: a node like any other - its phases run
+				// (once each) around the embedded walk, and its Post names the action
+				for _, n := range g.sc.Nodes {
+					if n.Kind == "flow" && n.ID != g.sc.Root && r.IntN(2) == 0 {
+						n.Wrap = pick(r, []string{"a", "b", "default", "ab"})
+					}
+				}
+			}
 		}
 		return g.sc
 	})
@@ -1067,6 +1077,19 @@ func genC08(prop, tier string, r *rand.Rand) *Scn {
 	}
 	n := g.rootBatch(ni, budget, wait, conc, stop, nil)
 	g.timing(n)
+	if r.IntN(10) == 0 && ni > 0 {
+		// the deadline passes while executions that take their time are going on:
+		// the bound holds, post waits for every execution that was started, and
+		// nothing is still executing when the run has returned
+		for i := range n.Visits[0].Items {
+			for a := range n.Visits[0].Items[i].Exec {
+				n.Visits[0].Items[i].Exec[a].Gate = ""
+				n.Visits[0].Items[i].Exec[a].SleepMs = 10 * (1 + r.IntN(6))
+			}
+		}
+		g.sc.Ctx = CtxSpec{Kind: "deadline", DeadlineUs: int64(1000*(1+r.IntN(60)) + 1 + r.IntN(900))}
+		return g.sc
+	}
 	if wait > 0 {
 		// (the usability workloads below need every first attempt to park: keep this one to the upper bound)
 		return g.sc
